@@ -206,6 +206,25 @@ def run(ctx):
             report("Verify differs from the proved model (%s): impl=%s model=%s" % (c["desc"], a.split(" trace=")[0], b.split(" trace=")[0]), replay, nf=True)
         if wrong and ca["unusable"] == 0 and len(ctx.samples) < 5:
             ctx.sample({"pattern": c["desc"], "verify": a.split(" trace=")[0]})
+    # a recovery file that is a SYMBOLIC LINK to an intact volume kept elsewhere in the directory (real directory): it is a
+    # file like any other - same counts as with the plain file
+    sl_lines, sl_meta = [], []
+    for ps in rsets[:3]:
+        if ps.created is None or not ps.volumes:
+            continue
+        fs = dict(ps.created); del fs[ps.paths["b"]]
+        v = ps.volumes[0]
+        fs2 = dict(fs); fs2[P.DIR + "/store-0001.bin"] = fs[v]; fs2[v] = b"VHSYMLINK:store-0001.bin"
+        sl_lines += [L.line_verify("p2", "real", ps.index, 1, fs, dirs=[P.DIR]), L.line_verify("p2", "real", ps.index, 1, fs2, dirs=[P.DIR])]
+        sl_meta.append(ps)
+    sl_res = ctx.run_lines(vh, sl_lines)
+    for k, ps in enumerate(sl_meta):
+        plain, linked = L.parse_result(sl_res[2 * k]), L.parse_result(sl_res[2 * k + 1])
+        ctx.count("symlinked-volume|" + ps.base, True)
+        dist["pattern"]["symlinked-volume"] = dist["pattern"].get("symlinked-volume", 0) + 1
+        if plain.get("counts") != linked.get("counts") or linked["res"] != plain["res"]:
+            report("a recovery file that is a symbolic link to an intact volume is not treated like the file itself: counts %s with the link, %s with the plain file (base %r)" %
+                   (linked.get("counts"), plain.get("counts"), ps.base), {"lines": sl_lines[2 * k:2 * k + 2], "mode": "real", "impl": sl_res[2 * k + 1][:800], "class": {"pattern": "symlinked-volume"}})
     return ctx.finish(
         "proof",
         rule="archive states from the C01 generator (all damage kinds, pairs, dropped recovery files) plus, for every file of every set, the patterns that leave every slice findable while the file is wrong (bytes inserted at the front, garbage appended, trailing zero bytes lost or added, two files swapped), the intact state, recovery files with foreign packets first/between, and copies of recovery files beside the originals (a block counts once); non-trivial = some protected file differs from its original",
